@@ -145,6 +145,91 @@ fn rp62_merge_with_int_contract() {
     assert!(enc(v) != enc(w));
 }
 
+/// a second, cheaper permutation double for the multi-block harnesses: rotation by one word, the length-tag
+/// word (the last one) added to every word, plus a constant in word 0
+pub fn perm_rot(state: &mut [BaseElement; STATE_WIDTH]) {
+    let old = *state;
+    let mut i = 0;
+    while i < STATE_WIDTH {
+        state[i] = old[(i + 1) % STATE_WIDTH] + old[STATE_WIDTH - 1];
+        i += 1;
+    }
+    state[0] = state[0] + BaseElement::ONE;
+}
+
+/// the documented sponge over base-field residues, written independently of hash_elements: 12 words, the
+/// last capacity word (word 11) starts as the number of residues; residues are added into words 0..7 one by
+/// one, the permutation runs after every 8 and once more for a partial block (zero padding); the digest is
+/// words 0..3
+fn reference_sponge(residues: &[BaseElement]) -> ElementDigest {
+    let mut st = [BaseElement::ZERO; 12];
+    st[11] = new_stub(residues.len() as u64);
+    let mut filled = 0usize;
+    let mut k = 0usize;
+    while k < residues.len() {
+        st[filled] = st[filled] + residues[k];
+        filled += 1;
+        if filled == 8 {
+            perm_rot(&mut st);
+            filled = 0;
+        }
+        k += 1;
+    }
+    if filled > 0 {
+        perm_rot(&mut st);
+    }
+    ElementDigest::new([st[0], st[1], st[2], st[3]])
+}
+
+fn any_elements<const L: usize>() -> [BaseElement; L] {
+    let raw: [u64; L] = kani::any();
+    let mut els = [BaseElement::ZERO; L];
+    let mut i = 0;
+    while i < L {
+        kani::assume(raw[i] < 2 * M);
+        els[i] = mk(raw[i]);
+        i += 1;
+    }
+    els
+}
+
+fn hash_elements_is_reference_sponge<const L: usize>() {
+    let els = any_elements::<L>();
+    assert!(same(Rp62_248::hash_elements(&els), reference_sponge(&els)));
+}
+
+macro_rules! he {
+    ($name:ident, $l:expr) => {
+        #[kani::proof]
+        #[kani::unwind(20)]
+        #[kani::stub(BaseElement::new, new_stub)]
+        #[kani::stub(apply_permutation, perm_rot)]
+        fn $name() {
+            hash_elements_is_reference_sponge::<$l>();
+        }
+    };
+}
+he!(rp62_hash_elements_len0_bounded, 0);
+he!(rp62_hash_elements_len1_bounded, 1);
+he!(rp62_hash_elements_len7_bounded, 7);
+he!(rp62_hash_elements_len8_bounded, 8);
+he!(rp62_hash_elements_len9_bounded, 9);
+he!(rp62_hash_elements_len16_bounded, 16);
+he!(rp62_hash_elements_len17_bounded, 17);
+
+#[kani::proof]
+#[kani::unwind(20)]
+#[kani::stub(BaseElement::new, new_stub)]
+#[kani::stub(apply_permutation, perm_rot)]
+fn rp62_hash_elements_extension_typing_bounded() {
+    use math::fields::{CubeExtension, QuadExtension};
+    let c = any_elements::<6>();
+    let quad = [QuadExtension::new(c[0], c[1]), QuadExtension::new(c[2], c[3]), QuadExtension::new(c[4], c[5])];
+    assert!(same(Rp62_248::hash_elements(&quad), reference_sponge(&c)));
+    let cube = [CubeExtension::new(c[0], c[1], c[2]), CubeExtension::new(c[3], c[4], c[5])];
+    assert!(same(Rp62_248::hash_elements(&cube), reference_sponge(&c)));
+}
+
 #[kani::proof]
 #[kani::unwind(16)]
 #[kani::stub(BaseElement::new, new_stub)]
